@@ -6,14 +6,14 @@
 /// Check for `assertion`: ""format class = class of the first date-like token of the first section""
 
 #[test]
-fn kani_concrete_playback_c10_q_grammar_3_13805986787156380271() {
+fn kani_concrete_playback_c10_q_grammar_3_13422952133912952258() {
     let concrete_vals: Vec<Vec<u8>> = vec![
-        // 35ul
-        vec![35, 0, 0, 0, 0, 0, 0, 0],
-        // 40ul
-        vec![40, 0, 0, 0, 0, 0, 0, 0],
-        // 30ul
-        vec![30, 0, 0, 0, 0, 0, 0, 0],
+        // 23ul
+        vec![23, 0, 0, 0, 0, 0, 0, 0],
+        // 46ul
+        vec![46, 0, 0, 0, 0, 0, 0, 0],
+        // 15ul
+        vec![15, 0, 0, 0, 0, 0, 0, 0],
     ];
     kani::concrete_playback_run(concrete_vals, c10_q_grammar_3);
 }
@@ -23,14 +23,14 @@ fn kani_concrete_playback_c10_q_grammar_3_13805986787156380271() {
 /// Check for `cover`: "end-elapsed"
 
 #[test]
-fn kani_concrete_playback_c10_q_grammar_3_11135621503582735582() {
+fn kani_concrete_playback_c10_q_grammar_3_16149821702332822165() {
     let concrete_vals: Vec<Vec<u8>> = vec![
-        // 22ul
-        vec![22, 0, 0, 0, 0, 0, 0, 0],
         // 31ul
         vec![31, 0, 0, 0, 0, 0, 0, 0],
-        // 31ul
-        vec![31, 0, 0, 0, 0, 0, 0, 0],
+        // 21ul
+        vec![21, 0, 0, 0, 0, 0, 0, 0],
+        // 47ul
+        vec![47, 0, 0, 0, 0, 0, 0, 0],
     ];
     kani::concrete_playback_run(concrete_vals, c10_q_grammar_3);
 }
@@ -40,14 +40,14 @@ fn kani_concrete_playback_c10_q_grammar_3_11135621503582735582() {
 /// Check for `cover`: "end-date"
 
 #[test]
-fn kani_concrete_playback_c10_q_grammar_3_17928942619583348609() {
+fn kani_concrete_playback_c10_q_grammar_3_14318409481909795793() {
     let concrete_vals: Vec<Vec<u8>> = vec![
-        // 19ul
-        vec![19, 0, 0, 0, 0, 0, 0, 0],
-        // 12ul
-        vec![12, 0, 0, 0, 0, 0, 0, 0],
-        // 39ul
-        vec![39, 0, 0, 0, 0, 0, 0, 0],
+        // 3ul
+        vec![3, 0, 0, 0, 0, 0, 0, 0],
+        // 30ul
+        vec![30, 0, 0, 0, 0, 0, 0, 0],
+        // 17ul
+        vec![17, 0, 0, 0, 0, 0, 0, 0],
     ];
     kani::concrete_playback_run(concrete_vals, c10_q_grammar_3);
 }
